@@ -39,6 +39,8 @@ pub enum Event {
         captures: usize,
         /// Depth of the evaluation-local auto-escape stack.
         auto_escape_depth: usize,
+        /// The auto-escape mode in effect (Debug rendering).
+        auto_escape_mode: String,
         /// Fuel this instruction is charged.
         fuel: u64,
     },
@@ -54,6 +56,8 @@ pub enum Event {
         captures: usize,
         /// Whether auto escaping is enabled.
         auto_escape: bool,
+        /// The auto-escape mode in effect (Debug rendering).
+        auto_escape_mode: String,
         /// Depth of the evaluation-local auto-escape stack.
         auto_escape_depth: usize,
     },
